@@ -25,6 +25,7 @@ type Engine struct {
 	lastSort  map[*VC]sortInfo
 	funcs     map[string]*ssa.Function
 	funcRefs  map[string]int
+	gwCache   map[*ssa.Package][]string
 }
 
 func loadEngine(dir string, patterns []string, tags string, overlay map[string][]byte) (*Engine, error) {
@@ -50,7 +51,7 @@ func loadEngine(dir string, patterns []string, tags string, overlay map[string][
 	prog.Build()
 	e := &Engine{prog: prog, tpkgs: pkgs, fset: pkgs[0].Fset, contracts: newContractSet(), globals: map[*ssa.Global]int{},
 		closures: map[string]*ssa.MakeClosure{}, specMemo: map[*VC]map[string]Val{}, lastSort: map[*VC]sortInfo{},
-		funcs: map[string]*ssa.Function{}, funcRefs: map[string]int{}}
+		funcs: map[string]*ssa.Function{}, funcRefs: map[string]int{}, gwCache: map[*ssa.Package][]string{}}
 	for _, sp := range spkgs {
 		if sp == nil {
 			continue
@@ -185,7 +186,7 @@ func (e *Engine) verifyFunc(key string) (*VC, error) {
 	}
 	vc.declareGhosts(c.Ghosts, e.specPkg(fn))
 	vc.entryHeap = entry.heap
-	e.assumeGlobals(vc, entry)
+	e.runInit(vc, fn, entry)
 	env := vc.specEnv(fr, entry, nil)
 	for _, r := range c.Requires {
 		t, err := env.evalBool(r.Expr)
@@ -308,12 +309,76 @@ type modLoc struct {
 	overwrite func(vc *VC, base, final string) string
 }
 
-func (e *Engine) assumeGlobals(vc *VC, st *state) {
-	// values of package-level variables that are assigned only in the package initialiser
-	for _, gf := range e.globalFacts(vc) {
-		vc.assert(gf)
+// runInit executes the package initialiser symbolically so that package-level variables hold their
+// initial values at function entry. Sound as long as no other function writes a global (checked by
+// globalWrites, reported as an engine error of every function of the package).
+func (e *Engine) runInit(vc *VC, fn *ssa.Function, st *state) {
+	if fn.Pkg == nil {
+		return
+	}
+	initFn := fn.Pkg.Func("init")
+	if initFn == nil || len(initFn.Blocks) == 0 || fn == initFn {
+		return
+	}
+	for _, w := range e.globalWrites(fn.Pkg) {
+		vc.errorf("package-level variable written outside init: %s", w)
+	}
+	nobl, nerr := len(vc.obls), len(vc.errs)
+	fr := vc.newFrame(initFn, "init.", 1, []string{"init"})
+	rets := vc.run(fr, state{reach: "true", heap: st.heap})
+	vc.obls = vc.obls[:nobl]
+	if len(vc.errs) > nerr {
+		// constructs of initialisers the engine does not model only make globals unconstrained
+		vc.errs = vc.errs[:nerr]
+	}
+	if len(rets) == 1 {
+		st.heap = rets[0].heap.clone()
 	}
 }
 
-// globalFacts: values of package-level variables; filled in by init analysis (globals.go).
-func (e *Engine) globalFacts(vc *VC) []string { return nil }
+func (e *Engine) globalWrites(pkg *ssa.Package) []string {
+	if w, ok := e.gwCache[pkg]; ok {
+		return w
+	}
+	var out []string
+	var rootGlobal func(v ssa.Value) *ssa.Global
+	rootGlobal = func(v ssa.Value) *ssa.Global {
+		switch x := v.(type) {
+		case *ssa.Global:
+			return x
+		case *ssa.FieldAddr:
+			return rootGlobal(x.X)
+		case *ssa.IndexAddr:
+			return rootGlobal(x.X)
+		}
+		return nil
+	}
+	var scan func(fn *ssa.Function)
+	scan = func(fn *ssa.Function) {
+		for _, b := range fn.Blocks {
+			for _, ins := range b.Instrs {
+				if s, ok := ins.(*ssa.Store); ok {
+					if g := rootGlobal(s.Addr); g != nil && fn.Name() != "init" && !strings.HasPrefix(fn.Name(), "init#") {
+						out = append(out, g.Name()+" in "+fn.Name())
+					}
+				}
+			}
+		}
+		for _, af := range fn.AnonFuncs {
+			scan(af)
+		}
+	}
+	for _, m := range pkg.Members {
+		if f, ok := m.(*ssa.Function); ok {
+			scan(f)
+		}
+	}
+	for _, fn := range e.funcs {
+		if fn.Pkg == pkg {
+			scan(fn)
+		}
+	}
+	sort.Strings(out)
+	e.gwCache[pkg] = out
+	return out
+}
